@@ -54,12 +54,12 @@ def search_queries(nv, starts, unis, vals=(0, 1, 2)):
 ALLMODES = [(d, k) for d in (0, 1, 2) for k in (0, 1, 2)]
 
 
-def link_options(nv):
-    return [(k, a, b) for k in KINDS for a in range(nv) for b in range(nv)]
+def link_options(nv, kinds=KINDS):
+    return [(k, a, b) for k in kinds for a in range(nv) for b in range(nv)]
 
 
-def exhaustive_graphs(nv, maxlinks):
-    opts = link_options(nv)
+def exhaustive_graphs(nv, maxlinks, kinds=KINDS):
+    opts = link_options(nv, kinds)
     for n in range(maxlinks + 1):
         for combo in itertools.product(opts, repeat=n):
             yield list(combo)
@@ -71,6 +71,7 @@ def run_script(real, lines):
 
 class TravBase(Check):
     searches = False
+    kinds = KINDS
     assumptions = [
         "filter callbacks are pure functions of the identities of their arguments",
         "no mutation while a generator is being consumed",
@@ -102,10 +103,10 @@ class TravBase(Check):
         # exhaustive: ordered link lists
         plan = [(2, 2, None), (3, 2, None)] if quick else [(2, 3, None), (3, 3, None), (4, 2, None)]
         for nv, ml, _ in plan:
-            for links in exhaustive_graphs(nv, ml):
+            for links in exhaustive_graphs(nv, ml, self.kinds):
                 yield self.one(real, rng, nv, links, full=not quick)
         # sampled 3-link graphs over 3 vertices (quick) / 4-link over 3 (thorough)
-        opts3 = link_options(3)
+        opts3 = link_options(3, self.kinds)
         for _ in range(600 if quick else 20000):
             links = [rng.choice(opts3) for _ in range(3 if quick else 4)]
             yield self.one(real, rng, 3, links, full=False)
@@ -115,7 +116,7 @@ class TravBase(Check):
             nl = rng.randint(0, 12)
             links = []
             for _ in range(nl):
-                k = rng.choice(["D", "D", "U", "X", "DD", "UU"])
+                k = rng.choice(["D", "D", "U", "DD", "UU"] + (["X"] if rng.random() < (0.15 if self.searches else 1) else []))
                 a = rng.randrange(nv)
                 b = a if rng.random() < 0.15 else rng.randrange(nv)
                 if rng.random() < 0.04:
@@ -276,6 +277,7 @@ class C08(TravBase):
     id = "C08"
     modules = ["EG.Props.C08"]
     searches = True
+    kinds = ["D", "U"]      # searches run with LNK_UNKNOWN_ERROR: other classes only in the random part
 
     def witnesses(self):
         return [("D9", W.D9)]
